@@ -1,13 +1,14 @@
-SPECIFICATION Spec
+SPECIFICATION SafetySpec
 CONSTANTS
-  FixDurs = {0,1,2}
-  ScanDurs = {0,1,2}
-  RestDurs = {0,1,2}
-  NodeDurs = {0,1,2}
-  UseSw = TRUE
-  UseFs = FALSE
-  AllowRestart = FALSE
+  FixDurs = {1}
+  ScanDurs = {2}
+  RestDurs = {1}
+  NodeDurs = {0,1,2,3}
+  UseSw = FALSE
+  UseFs = TRUE
+  AllowRestart = TRUE
   InitSw = {"GOOD"}
+VIEW View
 INVARIANT InvNeverOverdue
 INVARIANT InvFixClock
 INVARIANT InvTypes
@@ -23,6 +24,5 @@ PROPERTY RestoreInWindow
 PROPERTY OsScanInWindow
 PROPERTY InstantOnlyAtZero
 PROPERTY OffTicksChangeNothing
-PROPERTY FixCompletes
-PROPERTY OsScanCompletes
+
 CHECK_DEADLOCK TRUE
